@@ -801,6 +801,67 @@ def helper_generics_part(check):
     return False
 
 
+def definition_generics_part(check):
+    """generic parameters are preserved in order at the definition: a struct, alias or enum declared `<P1, P2, ..>` is written with its
+    parameter list in exactly that order in every language that writes one (use sites pass the arguments by position), whatever the
+    alphabetical order of the names"""
+    rng = check.rng
+    ts = [m_path("typeshare")]
+    mreqs, rreqs, meta = [], [], []
+    g = Gen(rng)
+    pool = ["T", "E", "K", "V", "Value", "Key", "B", "A", "Ok", "Err"]
+    pynames = set()
+    for k in range(36 if check.thorough else 12):
+        lang = LANGS[k % len(LANGS)]
+        params = rng.sample(pool, 2 + k % 2)
+        if params == sorted(params):
+            params.reverse()                     # never the order a sorted container would give
+        wrap = lambda p, j: [t_path(p), t_path("Vec", [t_path(p)]), t_path("Option", [t_path(p)]), t_path("HashMap", [t_path("String"), t_path(p)])][j % 4]
+        fs = [field([], "f%d" % j, wrap(p, j + k)) for j, p in enumerate(params)]
+        st = {"kind": "struct", "attrs": list(ts), "ident": "Pair%d" % k, "generics": [("ty", p) for p in params], "fields": ("named", fs)}
+        al = {"kind": "alias", "attrs": list(ts), "ident": "Al%d" % k, "generics": [("ty", p) for p in params],
+              "ty": t_path("Pair%d" % k, [t_path(p) for p in params])}
+        en = {"kind": "enum", "attrs": list(ts) + [m_list("serde", [m_nv("tag", lit_s("t")), m_nv("content", lit_s("c"))])], "ident": "En%d" % k,
+              "generics": [("ty", p) for p in params],
+              "variants": [{"attrs": [], "ident": "V%d" % j, "fields": ("unnamed", [field([], None, wrap(p, j))])} for j, p in enumerate(params)]
+                          + [{"attrs": [], "ident": "St", "fields": ("named", fs)}]}
+        use = {"kind": "struct", "attrs": list(ts), "ident": "Use%d" % k, "generics": [],
+               "fields": ("named", [field([], "p", t_path("Pair%d" % k, [t_path(x) for x in ["String", "u8", "bool"][:len(params)]]))])}
+        f = {"attrs": [], "items": [st, al, en, use][: 4 if k % 3 else 1] + ([] if k % 3 else [use])}
+        cfg = cfg_for(lang, {}, prefix=rng.choice(["", "OP"]))
+        cfg["version_header"] = False
+        m, r, texts = l2.requests(lang, cfg, [{"crate": "", "file_name": "lib.rs", "path": "src/lib.rs", "file": f}], g)
+        mreqs.append(m); rreqs.append(r); meta.append((lang, params, texts[0], cfg))
+        if lang == "python":
+            pynames |= l2.names_of(f)
+    mans = model(mreqs, names=pynames or None)
+    rans = runner(rreqs)
+    for (lang, params, src, cfg), ma, ra in zip(meta, mans, rans):
+        check.saw(("definition-generics", lang, src), nontrivial=True)
+        check.count("definition-generics-" + lang)
+        ma_n, ra_n = l2.norm(ma), l2.norm(ra)
+        case = {"lang": lang, "config": cfg, "source": src, "declared": params}
+        if "ok" in ra_n:
+            out = "".join(ra_n["ok"].values())
+            heads = re.findall(r"(?m)^\s*(?:export\s+|public\s+|sealed\s+|data\s+|case\s+)*(?:interface|class|struct|typealias|type|trait|enum)\s+"
+                               r"(?:OP)?((?:Pair|Al|En)\d+(?:StInner)?)\s*(?:\(BaseModel,\s*Generic)?[<\[]([^>\]]*)[>\]]", out)
+            for name, plist in heads:
+                got = [re.sub(r"\s*(:\s*[\w &]+|\bany\b)\s*$", "", x.strip()).strip() for x in plist.split(",")]
+                check.count("definition-generics-headers")
+                if got != params and not (lang == "go" and name.startswith("Al")):
+                    check.violation("%s: `%s` is declared with the generic parameters %s in Rust and written with the parameter list %s; "
+                                    "use sites pass the arguments by position" % (lang, name, params, got),
+                                    case=case, impl=ra, model=ma, failing_input=True)
+                    return True
+            if not heads:
+                check.notes.append("definition-generics: no parameter list recognised in the %s output" % lang) if len(check.notes) < 40 else None
+        if ma_n != ra_n:
+            check.violation("generate_types differs from the model on generic definitions (%s)" % lang, case=case, impl=ra, model=ma,
+                            failing_input=False, broken="correspondence L2 generate_types (generic definitions; theorem TsV.C05.C05_compositional)")
+            return True
+    return False
+
+
 # ------------------------------------------------------------------ the check
 
 WITNESSES = {
@@ -857,6 +918,8 @@ def run(check):
     if use_sites(check, 1200 if check.thorough else 300):
         return
     if helper_generics_part(check):
+        return
+    if definition_generics_part(check):
         return
     # Go's acronym pass runs over whole formatted type expressions: a user type must come out the same at every position of a
     # type expression (alone, element, map key / value, generic argument) as where it is defined (the part is shared with C09)
